@@ -837,6 +837,36 @@ func registerStdIntrinsics(c func(string, intrinsicImpl)) {
 		var v value = a
 		return &v
 	})
+	// ---- strings.ToLower/ToUpper on symbolic ASCII strings (the real code forks per character) ----
+	caseConv := func(lower bool) intrinsicImpl {
+		return func(m *Machine, fr *frame, args []value) value {
+			s := args[0].(strV)
+			if s.concrete() {
+				return declined{}
+			}
+			cc := m.c
+			ascii := cc.True
+			for _, b := range s.sym {
+				ascii = cc.And(ascii, cc.BvCmp(smt.OBvUlt, b, cc.BVConst(8, 0x80)))
+			}
+			if !m.branch(ascii) {
+				panic(pathAbort{"assume", "non-ASCII symbolic string in strings.ToLower/ToUpper (outside the bound)"})
+			}
+			out := make([]*smt.Term, len(s.sym))
+			for i, b := range s.sym {
+				if lower {
+					isUp := cc.And(cc.BvCmp(smt.OBvUle, cc.BVConst(8, 'A'), b), cc.BvCmp(smt.OBvUle, b, cc.BVConst(8, 'Z')))
+					out[i] = cc.Ite(isUp, cc.BvBin(smt.OBvAdd, b, cc.BVConst(8, 32)), b)
+				} else {
+					isLo := cc.And(cc.BvCmp(smt.OBvUle, cc.BVConst(8, 'a'), b), cc.BvCmp(smt.OBvUle, b, cc.BVConst(8, 'z')))
+					out[i] = cc.Ite(isLo, cc.BvBin(smt.OBvSub, b, cc.BVConst(8, 32)), b)
+				}
+			}
+			return mkStr(out)
+		}
+	}
+	c("strings.ToLower", caseConv(true))
+	c("strings.ToUpper", caseConv(false))
 	// ---- errors ----
 	c("errors.Is", func(m *Machine, fr *frame, args []value) value { return m.errorsIs(fr, args[0].(iface), args[1].(iface)) })
 	c("errors.As", func(m *Machine, fr *frame, args []value) value { return m.errorsAs(fr, args[0].(iface), args[1].(iface)) })
